@@ -2,7 +2,7 @@
 Theorems for scheme `alpm`: `arch.vercmp` computes the vercmp(8) key order (refinement, C03),
 it is a lawful comparator on versions that all have or all lack a pkgrel and NOT across the two
 kinds (C01, partial + counterexample), the six operators of `ArchLinuxVersion` agree with it
-(C02), the class is unhashable (C12 vacuous), `str` round-trips (C11).
+(C02), `==` implies equal hash keys (C12), `str` round-trips (C11).
 -/
 import Univers.Scheme.AlpmSpec
 import Univers.Vers.Spec
@@ -339,10 +339,147 @@ theorem verOps_lawful : Lawful verOps vercmp := by
   simp only [verOps]
   cases vercmp a b <;> rfl
 
-/-- C12 holds vacuously: `ArchLinuxVersion` is unhashable (`hashable = false`) -/
-theorem eq_imp_hash (a b : Raw) : verOps.eq a b = true → hashKey a = hashKey b := fun _ => rfl
+/-! #### C12: equal versions have equal hash keys -/
 
-theorem hashable_false : hashable = false := rfl
+theorem lexList_eq_eq {α} (cmp : α → α → Ordering) (hc : ∀ a b, cmp a b = .eq → a = b) :
+    ∀ l1 l2 : List α, lexList cmp l1 l2 = .eq → l1 = l2 := by
+  intro l1
+  induction l1 with
+  | nil => intro l2 h; cases l2 <;> simp_all [lexList]
+  | cons x xs ih =>
+    intro l2 h
+    cases l2 with
+    | nil => simp [lexList] at h
+    | cons y ys =>
+      simp only [lexList, Ordering.then_eq_eq] at h
+      rw [hc x y h.1, ih ys h.2]
+
+theorem padLex_eq_eq {α} (cmp : α → α → Ordering) (d : α) (hc : ∀ a b, cmp a b = .eq → a = b) :
+    ∀ l1 l2 : List α, (∀ x ∈ l1, cmp x d ≠ .eq) → (∀ x ∈ l2, cmp d x ≠ .eq) →
+    padLex cmp d l1 l2 = .eq → l1 = l2 := by
+  intro l1
+  induction l1 with
+  | nil =>
+    intro l2 _ h2 h
+    cases l2 with
+    | nil => rfl
+    | cons y ys =>
+      simp only [padLex, Ordering.then_eq_eq] at h
+      exact absurd h.1 (h2 y (by simp))
+  | cons x xs ih =>
+    intro l2 h1 h2 h
+    cases l2 with
+    | nil =>
+      simp only [padLex, Ordering.then_eq_eq] at h
+      exact absurd h.1 (h1 x (by simp))
+    | cons y ys =>
+      simp only [padLex, Ordering.then_eq_eq] at h
+      rw [hc x y h.1, ih ys (fun z hz => h1 z (by simp [hz])) (fun z hz => h2 z (by simp [hz])) h.2]
+
+theorem charCmp_eq_eq (a b : Char) (h : charCmp a b = .eq) : a = b := by
+  simp only [charCmp, Nat.compare_eq_eq] at h
+  exact Char.toNat_inj.1 h
+
+theorem strCmp_eq_eq (a b : List Char) (h : strCmp a b = .eq) : a = b :=
+  lexList_eq_eq charCmp charCmp_eq_eq a b h
+
+theorem tokCmp_eq_eq (a b : Tok) (h : tokCmp a b = .eq) : a = b := by
+  obtain ⟨a1, a2, a3⟩ := a
+  obtain ⟨b1, b2, b3⟩ := b
+  simp only [tokCmp, lexPair, Ordering.then_eq_eq, natCmp, Nat.compare_eq_eq] at h
+  rw [h.1, strCmp_eq_eq _ _ h.2.1, h.2.2]
+
+theorem tokOf_rank_ne_pad (r : Char × List Char) : (tokOf r).1 ≠ 1 := by
+  simp only [tokOf]
+  cases cls r.1 <;> simp
+
+theorem toks_ne_pad (s : List Char) :
+    (∀ t ∈ toks s, tokCmp t Tok.pad ≠ .eq) ∧ (∀ t ∈ toks s, tokCmp Tok.pad t ≠ .eq) := by
+  constructor <;>
+  · intro t ht h
+    simp only [toks, List.mem_map] at ht
+    obtain ⟨r, _, rfl⟩ := ht
+    have := tokCmp_eq_eq _ _ h
+    have hr := tokOf_rank_ne_pad r
+    simp only [Tok.pad] at this
+    first
+      | exact hr (by rw [this])
+      | exact hr (by rw [← this])
+
+theorem segCmp_toks_eq (s1 s2 : List Char) (h : segCmp (toks s1) (toks s2) = .eq) :
+    toks s1 = toks s2 :=
+  padLex_eq_eq tokCmp Tok.pad tokCmp_eq_eq _ _ (toks_ne_pad s1).1 (toks_ne_pad s2).2 h
+
+/-- the numbers among the tokens -/
+def tokNum (t : Tok) : Option Nat := if t.1 == 3 then some t.2.2 else none
+
+theorem runs_head (c : Char) (cs : List Char) : ∃ ds rest, runs (c :: cs) = (c, ds) :: rest := by
+  simp only [runs]
+  cases runs cs with
+  | nil => exact ⟨[], [], rfl⟩
+  | cons r rest =>
+    obtain ⟨d, ds⟩ := r
+    by_cases h : (cls c == cls d) = true
+    · exact ⟨d :: ds, rest, by simp [h]⟩
+    · exact ⟨[], (d, ds) :: rest, by simp [h]⟩
+
+/-- `re.findall("[0-9]+", s)` returns the numeric runs -/
+theorem digitRuns_eq (s : List Char) :
+    digitRuns s = ((runs s).filter (fun r => cls r.1 == .digit)).map flat := by
+  induction s with
+  | nil => simp [digitRuns, runs]
+  | cons c cs ih =>
+    simp only [digitRuns, runs]
+    cases cs with
+    | nil =>
+      by_cases hc : c.isDigit = true
+      · simp [hc, digitRuns, runs, cls_digit.2 hc, flat]
+      · have : cls c ≠ .digit := fun h => hc (cls_digit.1 h)
+        simp [hc, digitRuns, runs, this]
+    | cons d ds =>
+      obtain ⟨es, rest, hr⟩ := runs_head d ds
+      rw [hr] at ih ⊢
+      simp only [List.head?_cons, Option.any_some]
+      by_cases hc : c.isDigit = true
+      · have hcc := cls_digit.2 hc
+        by_cases hd : d.isDigit = true
+        · have hdd := cls_digit.2 hd
+          simp only [hc, hd, if_true, ih, hcc, hdd, beq_self_eq_true, List.filter_cons_of_pos,
+            List.map_cons, flat]
+        · have hdd : cls d ≠ .digit := fun h => hd (cls_digit.1 h)
+          have hne : (Ty.digit == cls d) = false := by
+            simp only [beq_eq_false_iff_ne, ne_eq]; exact fun h => hdd h.symm
+          simp [hc, hd, ih, hcc, hne, flat]
+      · have hcc : cls c ≠ .digit := fun h => hc (cls_digit.1 h)
+        have hcb : (cls c == Ty.digit) = false := by simp [hcc]
+        simp only [hc, Bool.false_eq_true, if_false, ih]
+        by_cases he : (cls c == cls d) = true
+        · have hdd : (cls d == Ty.digit) = false := by
+            rw [← beq_iff_eq.1 he]; exact hcb
+          simp [he, hcb, hdd]
+        · simp [he, hcb]
+
+theorem numbers_eq_toks (s : List Char) : numbers s = (toks s).filterMap tokNum := by
+  simp only [numbers, digitRuns_eq, toks]
+  induction runs s with
+  | nil => rfl
+  | cons r rest ih =>
+    cases h : cls r.1 <;> simp [h, tokOf, tokNum, flat, ih]
+
+/-- C12: `==` implies equal hash keys: equal versions have the same epoch and version tokens,
+and the hash key is made of the numeric ones -/
+theorem eq_imp_hash (a b : Raw) : verOps.eq a b = true → hashKey a = hashKey b := by
+  intro h
+  have hv : vercmp a b = .eq := by simpa [verOps] using h
+  rw [vercmp_eq_key] at hv
+  simp only [keyCmp, key, lexPair, Ordering.then_eq_eq] at hv
+  simp only [hashKey, numbers_eq_toks, segCmp_toks_eq _ _ hv.1, segCmp_toks_eq _ _ hv.2.1]
+
+theorem hashable_true : hashable = true := rfl
+
+/-- the hash is coarser than `==`: the pkgrel, letters and separators are not hashed -/
+example : hashKey "1.0-1".toList = hashKey "1.0-2".toList ∧ verOps.eq "1.0-1".toList "1.0-2".toList = false := by
+  decide
 
 /-- what the constructor establishes -/
 def WellFormed (r : Raw) : Prop := r ≠ [] ∧ (∀ c ∈ r, isWs c = false) ∧ (∀ c, r.head? = some c → isV c = false)
@@ -433,6 +570,7 @@ open Univers.Alpm
 #print axioms vercmp_isLE_trans_partial
 #print axioms not_transCmp_vercmp
 #print axioms verOps_lawful
+#print axioms eq_imp_hash
 #print axioms str_roundtrip
 #print axioms construct_wf
 #print axioms parse_ne_nil
